@@ -145,11 +145,9 @@ def drain (m : Nat) (s : Cipher) (src : Bytes) : Cipher × Bytes × Bytes :=
   let keyStream := (s.buf.drop (64 * m - s.len)).take src.length
   ({ s with len := s.len - keyStream.length }, xorBytes (src.take keyStream.length) keyStream, src.drop keyStream.length)
 
-/-- `XORKeyStream(dst, src)` with a fresh `dst` of len(src) bytes; returns the new state and dst -/
-def xorKeyStream (m : Nat) (s : Cipher) (src : Bytes) : Except Panic (Cipher × Bytes) :=
-  if src.length = 0 then .ok (s, []) else
-  let (s1, out1, src1) := drain m s src
-  if src1.length = 0 then .ok (s1, out1) else
+/-- the part of `XORKeyStream` after the drain (`src` non-empty, `s.len = 0`): overflow check, whole
+    buffers, padded tail; returns the new state and the bytes written -/
+def xorRest (m : Nat) (s1 : Cipher) (src1 : Bytes) : Except Panic (Cipher × Bytes) :=
   let numBlocks := (src1.length + 63) / 64
   if s1.overflow || s1.counter.toNat + numBlocks > 2 ^ 32 then .error .overflow else
   let s2 := if s1.counter.toNat + numBlocks = 2 ^ 32 then { s1 with overflow := true } else s1
@@ -162,12 +160,19 @@ def xorKeyStream (m : Nat) (s : Cipher) (src : Bytes) : Except Panic (Cipher × 
     let b := src2 ++ zeros (nb * 64 - src2.length)
     blocksGeneric s3 b >>= fun (s4, bx) =>
     .ok ({ s4 with buf := zeros (64 * m - nb * 64) ++ bx, len := nb * 64 - src2.length },
-         out1 ++ out2 ++ bx.take src2.length)
+         out2 ++ bx.take src2.length)
   else if src2.length > 0 then
     let b := src2 ++ zeros (64 * m - src2.length)
     blocks s3 b >>= fun (s4, bx) =>
-    .ok ({ s4 with buf := bx, len := 64 * m - src2.length }, out1 ++ out2 ++ bx.take src2.length)
-  else .ok (s3, out1 ++ out2)
+    .ok ({ s4 with buf := bx, len := 64 * m - src2.length }, out2 ++ bx.take src2.length)
+  else .ok (s3, out2)
+
+/-- `XORKeyStream(dst, src)` with a fresh `dst` of len(src) bytes; returns the new state and dst -/
+def xorKeyStream (m : Nat) (s : Cipher) (src : Bytes) : Except Panic (Cipher × Bytes) :=
+  if src.length = 0 then .ok (s, []) else
+  let d := drain m s src
+  if d.2.2.length = 0 then .ok (d.1, d.2.1) else
+  (xorRest m d.1 d.2.2).map fun r => (r.1, d.2.1 ++ r.2)
 
 inductive Op
   | xor (src : Bytes)
